@@ -1,7 +1,7 @@
 (* Pinned statements of the C07 theorems (must match Properties/C07.v). *)
 From Coq Require Import ZArith Bool List.
 Import ListNotations.
-Require Import TC.Generated.Consts TC.Base.Map TC.Store.Stores TC.Store.Reclaim
+Require Import TC.Generated.Consts TC.Base.Map TC.Store.Stores TC.Store.Reclaim TC.Store.Bounded
   TC.Limiter.Arith TC.Limiter.KeyStep TC.Limiter.KeyLemmas TC.Limiter.Fields.
 Open Scope Z_scope.
 Require Import TC.Properties.C07.
@@ -57,3 +57,33 @@ Check C07_probabilistic_sweep :
   forall (K : Type) (s : bstate K) (now : Z),
   b_fires ((b_ops K s + 1) mod two64) (b_prob K s) = true ->
   Forall (fun e => now < expiry_of K e) (b_data K (b_maybe_clean K s now)).
+Check C07_entries_bounded_by_live_keys :
+  forall (K : Type) (keqb : K -> K -> bool), (forall a b, reflect (a = b) (keqb a b)) ->
+  forall (ops : list (bool * sop K)) (d : data K) (lo : Z),
+  prov K ops d -> all_expire_from K lo d -> (length d <= length (dedup K keqb (live_writes K lo ops)))%nat.
+Check C07_periodic_bounded :
+  forall (K : Type) (keqb : K -> K -> bool), (forall a b, reflect (a = b) (keqb a b)) ->
+  forall (t_build interval : Z) (pre : list (bool * sop K)) (orc : bool) (o : sop K),
+  0 <= interval -> nondec t_build (ops_times K (pre ++ [(orc, o)])) -> ops_ttl_ok K (pre ++ [(orc, o)]) ->
+  is_write o = true ->
+  (length (sdata K (fst (srun K keqb (periodic_new t_build interval) (pre ++ [(orc, o)])))) <=
+   length (dedup K keqb (live_writes K (op_time o - interval) (pre ++ [(orc, o)]))))%nat.
+Check C07_adaptive_bounded :
+  forall (K : Type) (keqb : K -> K -> bool), (forall a b, reflect (a = b) (keqb a b)) ->
+  forall (t_build mn mx mo : Z) (pre : list (bool * sop K)) (orc : bool) (o : sop K),
+  0 <= mn -> 0 <= mx -> nondec t_build (ops_times K (pre ++ [(orc, o)])) -> ops_ttl_ok K (pre ++ [(orc, o)]) ->
+  is_write o = true ->
+  let W := Z.max (ADAPTIVE_DEFAULT_CLEANUP_INTERVAL_SECS * 1000000000) (Z.max mn mx) in
+  (length (sdata K (fst (srun K keqb (adaptive_new t_build mn mx mo) (pre ++ [(orc, o)])))) <=
+   length (dedup K keqb (live_writes K (op_time o - W) (pre ++ [(orc, o)]))))%nat.
+Check C07_swept_bounded :
+  forall (K : Type) (keqb : K -> K -> bool), (forall a b, reflect (a = b) (keqb a b)) ->
+  forall (ops : list (bool * sop K)) (d : data K) (now : Z),
+  prov K ops d -> (length (retain K d now) <= length (dedup K keqb (live_writes K (now + 1) ops)))%nat.
+Check C07_step_grows_by_one :
+  forall (K : Type) (keqb : K -> K -> bool) (s : store K) (orc : bool) (o : sop K),
+  (length (sdata K (fst (sstep K keqb s orc o))) <= S (length (sdata K s)))%nat.
+Check C07_tables_stem_from_writes :
+  forall (K : Type) (keqb : K -> K -> bool), (forall a b, reflect (a = b) (keqb a b)) ->
+  forall (ops pre : list (bool * sop K)) (s : store K),
+  prov K pre (sdata K s) -> prov K (pre ++ ops) (sdata K (fst (srun K keqb s ops))).
